@@ -14,6 +14,7 @@ import itertools
 
 import common
 import rx
+import simnet
 from rx import F
 
 OPS = ["send:1:61", "recv", "ping:70", "close:1000:-:1000", "close:1001:6279:3000", "close:70000:-:1000",
@@ -193,6 +194,70 @@ def run(ctx):
         ctx.case(key=line, nontrivial=nontriv, cls=f"script={nm}:len={min(len(ops), 5)}",
                  sample={"script": nm, "calls": ops, "impl": impl[:240]} if len(ctx.samples) < 6 and len(ops) == 4 and nm in ("close2", "late-close") else None)
         judge(ctx, line, nm, ops, impl, sock)
+    run_app_facade(ctx)
+
+
+def run_app_facade(ctx):
+    """the same state machine through the application object's own entry points (`WebSocketApp.send` / `.close(**kwargs)`),
+    the connection made and held as run_forever holds it (`app.sock`): a refused status leaves the connection as it was;
+    a later valid close writes its one frame and releases the transport.  Oracle only."""
+    import websocket
+    rnd = ctx.rng("app-facade")
+    bads = [-1, 999, 65536, 70000, 1 << 20]      # (999 is in 0..65535: refused only by range → see below)
+    for it in range(60 if ctx.thorough() else 24):
+        bad = bads[it % len(bads)]
+        steps = rnd.choice([["bad", "send", "good"], ["bad", "good"], ["send", "bad", "bad", "good"], ["bad", "send", "send", "good", "send"],
+                            ["good", "send"], ["bad", "good", "good"]])
+        app = websocket.WebSocketApp("ws://example.test/")
+        ws = websocket.WebSocket()
+        sock = simnet.SimSocket([], tail="timeout")
+        sock.timeout = 0.2
+        ws.sock, ws.connected = sock, True
+        ws.set_mask_key(lambda n: b"\x00" * n)
+        app.sock = ws
+        app.keep_running = True
+        obs, closed_ok = [], False
+        for st in steps:
+            before = len(sock.sent)
+            try:
+                if st == "bad":
+                    app.close(status=bad)
+                elif st == "good":
+                    app.close(status=1001, reason=b"bye", timeout=0)
+                else:
+                    app.send("hi")
+                r = "ok"
+            except Exception as e:  # noqa
+                r = "X:" + common.canon_exc(e)
+            obs.append((st, r, bytes(sock.sent[before:]).hex()))
+        ctx.case(key=("app-facade", it, bad, tuple(steps)), nontrivial=True, cls=f"app-facade:{'-'.join(steps)[:40]}")
+        inp = {"op": "WebSocketApp.close(status=bad) / .send('hi') / .close(status=1001, reason=b'bye') on an app holding a connection",
+               "bad_status": bad, "steps": steps}
+        in_range = 0 <= bad < 65536
+        def cf(body):
+            return (bytes([0x88, 0x80 | len(body)]) + b"\x00" * 4 + body).hex()
+        want, live = [], True
+        for st in steps:
+            if st == "bad":
+                if in_range and live:
+                    want.append((st, "ok", cf(bad.to_bytes(2, "big"))))
+                    live = False
+                elif live:
+                    want.append((st, "X:VALUEERROR", ""))
+                else:
+                    want.append((st, "ok", ""))
+            elif st == "good":
+                want.append((st, "ok", cf((1001).to_bytes(2, "big") + b"bye") if live else ""))
+                live = False
+            else:
+                want.append((st, "ok" if live else "X:CLOSED", "818200000000" + b"hi".hex() if live else ""))
+        norm = [(a, b, c) for a, b, c in obs]
+        if norm != want:
+            ctx.violate("status-range-enforced" if any(w[1] == "X:VALUEERROR" for w in want) else "at-most-one-own-close",
+                        "app-close-with-refused-status-loses-the-connection" if not in_range else "app-facade-close-state",
+                        inp, want, norm, size=len(steps))
+        if not live and not (sock.closed or sock.shutdown_called):
+            ctx.violate("released-after-close", "app-close-leaves-transport-open", inp, "transport shut down / closed", "open", size=len(steps))
 
 
 def search(ctx):
